@@ -14,6 +14,9 @@ THEOREMS = [
     "Vinegar.C01.complete_unless_aborted",
     "Vinegar.C01.serverErrorsJustified_iff",
     "Vinegar.C01.serverErrorsJustified_runTransfer",
+    "Vinegar.C01.c02Step_ended",
+    "Vinegar.C01.overflowEndsWithError_iff",
+    "Vinegar.C01.overflowEndsWithError_runTransfer",
     "Vinegar.C01.idealPackets_numbers",
     "Vinegar.C01.idealPackets_wraps",
     "Vinegar.C01.idealPackets_stops",
